@@ -3,6 +3,7 @@ import DmrVerif.Props.C02b
 import DmrVerif.Props.C02c
 import DmrVerif.Props.C06
 import DmrVerif.Lemmas.BptcHist
+import DmrVerif.Lemmas.BptcContent
 
 /-!
 # C02 — BPTC(196,96) returns the sent 96 bits for every code word and every correctable error
@@ -28,6 +29,11 @@ this model on interleaved histories of every entry point.  `reused_buffer_le2` /
 state it for a frame buffer the caller overwrites in place and hands in again (nothing of the previous
 content — and no relation between the two contents — matters), `after_any_streak` for a correctable
 frame that follows any streak of other calls (unrepairable frames, calls that raise).
+
+Round 4 (`repair_content_independent`, `decode_content_independent`, `payload_rows_of_codeword`): the repair and
+the decoder treat the message and the errors separately — for EVERY received word, not only the correctable
+ones — so no row / column structure of the message in the payload table can interact with the positions of the
+errors; the correspondence run checks exactly that on messages built by line structure with the errors aimed at it.
 -/
 
 namespace Dmr.C02
@@ -281,5 +287,69 @@ def exampleReuse : List Step :=
 
 example : (runSteps Store.empty exampleReuse).get 0 = some (.bits (flipAt 5 (List.replicate 196 false)))
     ∧ (runSteps Store.empty exampleReuse).size = 7 := by decide +kernel
+
+/-! ## content independence: no structure of the message can matter (round 4) -/
+
+/-- what `repair_if_necessary` does to a received word depends on the ERROR pattern only: for every 96-bit message
+and EVERY 196-bit word `w` (any weight — not only the correctable ones) the repair of `encode m ⊕ w` is
+`encode m ⊕ (repair of w)`, on all 196 bits.  No content of the payload table — empty rows or columns, lines with a
+single set bit, equal / one-bit-off / periodic lines, lines that are code words — enters the result. -/
+theorem repair_content_independent (m : Bits) (hm : m.length = 96) (w : Bits) (hw : w.length = 196) :
+    ∃ c rw, encode m = .ok c ∧ repairIfNecessary w = .ok rw
+      ∧ repairIfNecessary (xorBits c w) = .ok (xorBits c rw) := by
+  refine ⟨_, repairCore w, encode_ok m hm, by simp [repairIfNecessary, hw], ?_⟩
+  have hl : (xorBits (encodeCore infoMap m) w).length = 196 := by
+    rw [xorBits_length, encodeCore_length, hw]; exact Nat.min_self 196
+  simp only [repairIfNecessary, hl, if_true]
+  rw [repairCore_xor_encode tables_ok m w hw]
+
+/-- the same for the decoder, with and without repair: from `encode m ⊕ w` it returns `m ⊕ (what it returns for w
+alone)` — the message and the errors never interact -/
+theorem decode_content_independent (m : Bits) (hm : m.length = 96) (w : Bits) (hw : w.length = 196) (r : Bool) :
+    ∃ c d, encode m = .ok c ∧ deinterleaveDataBits w r = .ok d
+      ∧ deinterleaveDataBits (xorBits c w) r = .ok (xorBits m d) := by
+  have hl : (xorBits (encodeCore infoMap m) w).length = 196 := by
+    rw [xorBits_length, encodeCore_length, hw]; exact Nat.min_self 196
+  refine ⟨_, dataCore (if r then repairCore w else w), encode_ok m hm,
+    by simp [deinterleaveDataBits, hw], ?_⟩
+  simp only [deinterleaveDataBits, hl, if_true]
+  cases r
+  · simp [data_xor_encode tables_ok m w hm hw]
+  · simp [data_repair_xor_encode tables_ok m w hm hw]
+
+/-- the structure of the message IS the structure of the table the repair works on: the payload block (rows 0..8 ×
+columns 0..10) of the table `repair_if_necessary` builds from the code word of `m` is, cell by cell, the block of
+rows `fill_encoding_table` laid `m` out in (`payloadRows`, the model side of the harness' row / column generator) -/
+theorem payload_rows_of_codeword (m : Bits) (hm : m.length = 96) :
+    ∃ c, encode m = .ok c
+      ∧ payloadRows m = .ok (payloadBlock (fillCore fullDeinterleavingMap (deinterleaveAllCore c))) := by
+  refine ⟨_, encode_ok m hm, ?_⟩
+  simp only [payloadRows, hm, if_true]
+  rw [payloadBlock_cell_encode tables_ok m]
+
+/-- non-vacuity (round 4): a message made by row structure — payload rows 2 and 5 hold exactly one set bit, both in
+column 7, rows 3 and 4 carry payload, every other row is empty (the two lone rows are the outermost used rows) — and
+the error pattern aimed at it: exactly the two lone bits (on-air positions 18 and 127) -/
+def exampleRows : Bits :=
+  (List.range 96).map (fun i => i == 26 || i == 59 || (decide (30 ≤ i) && decide (i < 52) && i % 3 == 0))
+def exampleAimed : Bits := xorBits (unit 196 18) (unit 196 127)
+
+def rowOf (s : List Nat) : Bits := s.map (fun n => n != 0)
+
+/-- the rows the example message is laid out in, and the rows the repair finds in the received table once the two
+aimed errors hit: the two lone rows now look like empty rows at the edge of the used window -/
+example : exampleRows.length = 96 ∧ exampleAimed.length = 196 ∧ weight exampleAimed = 2
+    ∧ payloadBlock (fillCore infoMap exampleRows)
+      = [zeros 11, zeros 11, rowOf [0,0,0,0,0,0,0,1,0,0,0], rowOf [1,0,0,1,0,0,1,0,0,1,0],
+         rowOf [0,1,0,0,1,0,0,1,0,0,1], rowOf [0,0,0,0,0,0,0,1,0,0,0], zeros 11, zeros 11, zeros 11]
+    ∧ payloadBlock (fillCore fullDeinterleavingMap (deinterleaveAllCore
+        (xorBits (encodeCore infoMap exampleRows) exampleAimed)))
+      = [zeros 11, zeros 11, zeros 11, rowOf [1,0,0,1,0,0,1,0,0,1,0],
+         rowOf [0,1,0,0,1,0,0,1,0,0,1], zeros 11, zeros 11, zeros 11, zeros 11] := by
+  decide +kernel
+
+example : ∃ c, encode exampleRows = .ok c
+    ∧ deinterleaveDataBits (xorBits c exampleAimed) true = .ok exampleRows :=
+  correct_le2 exampleRows (by decide +kernel) exampleAimed (by decide +kernel) (by decide +kernel)
 
 end Dmr.C02
